@@ -19,6 +19,8 @@
 //!   ifaces <d> <k> (<ifname> <idx> <ip> <prefix>)*  new OS interface table of d
 //!   browse|browsec <d> <chan> <ty>                  browse / browse_cache, events on channel <chan>
 //!   stopbrowse <d> <ty>
+//!   dropchan <d> <chan>                             the client drops the receiver of channel <chan> (the daemon's
+//!                                                   sends on it fail from now on; nothing is observed on it any more)
 //!   resolve <d> <chan> <host> <none|some ms>        resolve_hostname
 //!   stopresolve <d> <host>
 //!   register <d> <ty> <inst> <host> <port> <nip> <ip>* <nprops> (<key> <valopt>)* <probe> <addrauto>
@@ -501,6 +503,11 @@ fn run_script(cmds: &[String], dense: u64) -> Option<String> {
                 w.pending_rx[d] = true;
             }
             "quiet" => w.quiet = t.boolean()?,
+            "dropchan" => {
+                let d = t.nat()? as usize;
+                let ch = t.nat()?;
+                w.chans.retain(|(cd, cid, _, _)| !(*cd == d && *cid == ch));
+            }
             "drop" => w.drop_n = t.nat()?,
             "dup" => w.dup_n = t.nat()?,
             "ifaces" => {
